@@ -190,7 +190,7 @@ func cmdManifest() int {
 			"source_commits":   []string{},
 			"add_only":         true,
 		},
-		"engines": []map[string]interface{}{{"name": "crngcheck", "path": "/verif/checker", "serves_properties": engines["crngcheck"], "kind_free_text": "Go program: go/packages loader + go/ssa; engines for path-effect counting, snapshot taint / lock discipline, may-block effects, option wiring, crash-site obligations, ordering, confinement and sibling agreement; mutant battery through packages.Config.Overlay in the thorough tier"}},
+		"engines":        []map[string]interface{}{{"name": "crngcheck", "path": "/verif/checker", "serves_properties": engines["crngcheck"], "kind_free_text": "Go program: go/packages loader + go/ssa; engines for path-effect counting, snapshot taint / lock discipline, may-block effects, option wiring, crash-site obligations, ordering, confinement and sibling agreement; mutant battery through packages.Config.Overlay in the thorough tier"}},
 		"checks":         checks,
 		"not_applicable": na,
 		"notes":          "All checks are static analyses of /repo's current working tree; every claim is at level 'other' (necessary structural clauses, see DESIGN.md). Known findings: /verif/known_findings.txt.",
